@@ -335,6 +335,22 @@ def runOp (p : Prog) (dyn : Dyn) (st : St) (j : Json) : Dyn × St × Json :=
           | .ok v => Json.arr #["ok", jsonOfV v]
           | .error err => Json.arr #["err", jsonOfErr err]
         (dyn, { st' with events := [] }, Json.mkObj (("r", rj) :: jsonOfEvents st'.events))
+    | "fingerprint" =>
+      -- `Cacheable.fingerprint`: keys, sorted, each looked up in the options
+      let env := mkEnv p dyn (boolOf j "cache_off") (boolOf j "log_off") Option.none
+      let e := buildExpr p (natOf j "n")
+      let o := valOf j "o"
+      let m : M V := do
+        let ks ← ev env FUEL .keys e o
+        let items ← mapM' (fun k => do let v ← getKey k o; pure (V.dict [(k, v)])) (sortStrings (keyStrings ks))
+        pure (.list items)
+      match m { st with events := [] } with
+      | Option.none => (dyn, st, Json.mkObj [("r", Json.arr #["fuel"])])
+      | some (r, st') =>
+        let rj := match r with
+          | .ok v => Json.arr #["ok", jsonOfV v]
+          | .error err => Json.arr #["err", jsonOfErr err]
+        (dyn, { st' with events := [] }, Json.mkObj (("r", rj) :: jsonOfEvents st'.events))
     | "register" =>
       let k := natOf j "ov"
       match dyn.ov.find? (fun q => q.1 == k) with
